@@ -132,10 +132,15 @@ def correspondence(ctx, docs):
 def html_oracle(ctx, docs):
     """The property on the real HTML."""
     import mistune
-    md = mistune.create_markdown(escape=True, plugins=["footnotes", "table", "strikethrough"])
-    ast = mistune.create_markdown(renderer=None, plugins=["footnotes", "table", "strikethrough"])
+    base = {"plugins": ["footnotes", "table", "strikethrough"]}
+    variants = [("plain", dict(base), ""), ("toc-hook", dict(base, toc_hook=True), ""), ("toc-rst", dict(base, directives="rst"), ".. toc::\n\n"),
+                ("toc-fenced", dict(base, directives="fenced"), "```{toc}\n```\n\n"), ("all-hardwrap", {"plugins": configs.PLUGINS, "hard_wrap": True}, ""),
+                ("all-tochook-noescape", {"plugins": configs.PLUGINS, "toc_hook": True, "escape": False}, "")]
+    pairs = [(nm, configs.make(configs.C(nm, **kw)), configs.make(configs.C(nm, renderer="ast", **{k: v for k, v in kw.items() if k != "toc_hook"})), pre) for nm, kw, pre in variants]
     n = 0
-    for doc in docs:
+    for i, doc0 in enumerate(docs):
+        nm, md, ast, pre = pairs[0] if i % 2 == 0 else pairs[1 + (i // 2) % (len(pairs) - 1)]
+        doc = pre + doc0
         try:
             html = md(doc)
             toks = ast(doc)
@@ -146,7 +151,7 @@ def html_oracle(ctx, docs):
         refs = [(int(a), int(b), int(c)) for a, b, c in re.findall(r'<sup class="footnote-ref" id="fnref-(\d+)"><a href="#fn-(\d+)">(\d+)</a></sup>', html)]
         notes = [(int(a), int(b)) for a, b in re.findall(r'<li id="fn-(\d+)">.*?<a href="#fnref-(\d+)" class="footnote">&#8617;</a></p></li>', html, re.S)]
         nsec = html.count('<section class="footnotes">')
-        rep = {"doc": doc}
+        rep = {"doc": doc, "variant": nm}
         if any(not (a == b == c) for a, b, c in refs):
             ctx.fail("ref-inconsistent", "a reference's id/href/label numbers differ: %r" % refs, rep); continue
         first = []
